@@ -53,6 +53,8 @@ EXTRA_DOCS = {   # families that exercise cooperating fixes (same line, same lev
     "md007-nested": b"- a\n   - b\n      - c\n- d\n    - e\n",
     "md029-long": b"1. a\n1. b\n3. c\n\ntext\n\n0. x\n1. y\n5. z\n",
     "md030-mixed": b"-  a\n-   b\n\n1.  c\n2.   d\n",
+    "md037-many-pairs": b"# T\n\nthis * is * and * more* text\n\n- first _ a _ then _ b_ done\n\nuse * one * then * two * and * three * here\n\n> This * is * wrong and * so * is this.\n",
+    "md038-md039-many": b"# T\n\n` a ` and ` b ` and ` c ` here\n\n[ x ](/u) then [ y ](/v) and [ z ](/w)\n",
     "md019-tab-only": b"# Title\n\nSome text.\n\n##\tSection\n\nMore text.\n",
     "md021-tab-only": b"# Title\n\n## Section\t##\n\nMore text.\n",
     "md019-md021": b"#  one\n\n##  two  ##\n\n###   three\n",
